@@ -79,7 +79,7 @@ func decFsm(_ any, data []byte) (any, bool) {
 
 func init() {
 	register(&codec{
-		name: "fsm_cmd", weight: 10, rawShare: 30,
+		name: "fsm_cmd", weight: 24, rawShare: 55,
 		gen: func(r *rand.Rand) (any, string) {
 			v := fsmVal{Kind: vh.Pick(r, "noop", "upsert_user", "upsert_user", "create_user", "upsert_device", "upsert_device")}
 			v.User = metadb.User{UID: randStr(r, 10), Token: randStr(r, 12), DeviceFlag: genI64(r), DeviceLevel: genI64(r)}
@@ -116,15 +116,78 @@ func init() {
 			case x < 8:
 				t = uint8(r.UintN(256))
 			}
-			b := []byte{vh.Pick(r, uint8(1), 1, 1, 1, 0, 2), t}
-			for i := r.IntN(3); i > 0; i-- { // a few well-formed fields
-				val := vh.Bytes(r, vh.Pick(r, 0, 1, 8, 8, 3, 7, 9))
-				b = append(b, byte(1+r.IntN(5)), 0, 0, 0, byte(len(val)))
+			b := []byte{vh.Pick(r, uint8(1), 1, 1, 1, 1, 1, 0, 2), t}
+			// 1-5 fields over the tags of the user / device commands; half of them with the
+			// 8-byte length an int64 field must have, half with another one
+			for i := 1 + r.IntN(5); i > 0; i-- {
+				tag := byte(1 + r.IntN(4))
+				if vh.Chance(r, 0.1) {
+					tag = byte(r.UintN(256))
+				}
+				n := 8
+				if vh.Chance(r, 0.5) {
+					n = vh.Pick(r, 0, 1, 3, 7, 9, 16)
+				}
+				val := vh.Bytes(r, n)
+				b = append(b, tag, 0, 0, 0, byte(len(val)))
 				b = append(b, val...)
 			}
 			return b
 		},
 	})
+	// a real encoding of a modelled command with ONE field given another length (the
+	// per-field guards "len(value) != 8"), or one field dropped / duplicated / retagged
+	codecByName["fsm_cmd"].rawExact = func(r *rand.Rand) []byte {
+		c := codecByName["fsm_cmd"]
+		v, _ := c.gen(r)
+		for v.(fsmVal).Kind == "noop" {
+			v, _ = c.gen(r)
+		}
+		enc, _ := c.enc(v)
+		type field struct {
+			tag byte
+			val []byte
+		}
+		var fields []field
+		for off := 2; off+5 <= len(enc); {
+			n := int(enc[off+1])<<24 | int(enc[off+2])<<16 | int(enc[off+3])<<8 | int(enc[off+4])
+			if off+5+n > len(enc) {
+				break
+			}
+			fields = append(fields, field{enc[off], enc[off+5 : off+5+n]})
+			off += 5 + n
+		}
+		if len(fields) > 0 {
+			i := r.IntN(len(fields))
+			if vh.Chance(r, 0.7) { // an int64 field: the ones with a length guard
+				var ints []int
+				for k, f := range fields {
+					if len(f.val) == 8 {
+						ints = append(ints, k)
+					}
+				}
+				if len(ints) > 0 {
+					i = ints[r.IntN(len(ints))]
+				}
+			}
+			switch r.IntN(8) {
+			case 0:
+				fields = append(fields[:i], fields[i+1:]...)
+			case 1:
+				fields = append(fields, fields[i])
+			case 2:
+				fields[i].tag = byte(1 + r.IntN(6))
+			default:
+				fields[i].val = vh.Bytes(r, vh.Pick(r, 0, 1, 3, 7, 9, 16))
+			}
+		}
+		out := []byte{enc[0], enc[1]}
+		for _, f := range fields {
+			out = append(out, f.tag, byte(len(f.val)>>24), byte(len(f.val)>>16), byte(len(f.val)>>8), byte(len(f.val)))
+			out = append(out, f.val...)
+		}
+		return out
+	}
 	// command types without a model: encodings of the real encoders must decode,
 	// their truncations and mutations go through the same monitor
 	register(&codec{
